@@ -2,10 +2,12 @@
 package main
 
 import (
+	"bytes"
 	"database/sql/driver"
 	"encoding/binary"
 	"fmt"
 	"os"
+	"sync"
 
 	"github.com/brocaar/lorawan"
 	"verifharness/internal/cases"
@@ -92,6 +94,97 @@ func prefixCase(s *cases.Set, v uint32, a uint32) {
 		Kind:       fmt.Sprintf("prefix-type%d", v>>21),
 		Nontrivial: true,
 		Replay:     map[string]interface{}{"api": "DevAddr.SetAddrPrefix/IsNetID/NwkID", "netid": fmt.Sprintf("%06x", v), "devaddr": fmt.Sprintf("%08x", a), "observed_addr": fmt.Sprintf("%08x", oaddr)}})
+}
+
+// concurrentForms: the representation methods are called from several goroutines at once on distinct values
+// (a server renders and parses many identifiers in parallel); every result must be the one obtained
+// sequentially before (those are compared with the model as ordinary cases).
+func concurrentForms(s *cases.Set, r *cq.RNG, rounds int) {
+	type job struct {
+		id                    ident
+		val                   []byte
+		text, bin             []byte
+		sqlv                  []byte
+		prefixNet, prefixAddr uint32
+		prefixOut             uint32
+		member                bool
+	}
+	var jobs []job
+	for g := 0; g < 8; g++ {
+		for _, id := range idents() {
+			v := r.Bytes(id.k)
+			t, _ := id.text(v)
+			b, _ := id.bin(v)
+			sv, _ := id.value(v)
+			sb, _ := sv.([]byte)
+			j := job{id: id, val: v, text: t, bin: b, sqlv: append([]byte{}, sb...)}
+			j.prefixNet, j.prefixAddr = r.U32()&0xffffff, r.U32()
+			var nid lorawan.NetID
+			nid[0], nid[1], nid[2] = byte(j.prefixNet>>16), byte(j.prefixNet>>8), byte(j.prefixNet)
+			var da lorawan.DevAddr
+			binary.BigEndian.PutUint32(da[:], j.prefixAddr)
+			j.member = da.IsNetID(nid)
+			da.SetAddrPrefix(nid)
+			j.prefixOut = binary.BigEndian.Uint32(da[:])
+			jobs = append(jobs, j)
+		}
+	}
+	var mu sync.Mutex
+	bad := map[string]string{}
+	var wg sync.WaitGroup
+	for g := 0; g < 8; g++ {
+		wg.Add(1)
+		go func(g int) {
+			defer wg.Done()
+			defer func() {
+				if rec := recover(); rec != nil {
+					mu.Lock()
+					bad["panic"] = fmt.Sprint(rec)
+					mu.Unlock()
+				}
+			}()
+			for k := 0; k < rounds; k++ {
+				for i := g; i < len(jobs); i += 8 {
+					j := jobs[i]
+					what := ""
+					if t, _ := j.id.text(j.val); !bytes.Equal(t, j.text) {
+						what = fmt.Sprintf("MarshalText gave %q, sequentially %q", t, j.text)
+					} else if v, err := j.id.untext(j.text); err != nil || !bytes.Equal(v, j.val) {
+						what = fmt.Sprintf("UnmarshalText(%q) gave %x", j.text, v)
+					} else if b, _ := j.id.bin(j.val); !bytes.Equal(b, j.bin) {
+						what = fmt.Sprintf("MarshalBinary gave %x, sequentially %x", b, j.bin)
+					} else if v, err := j.id.unbin(j.bin); err != nil || !bytes.Equal(v, j.val) {
+						what = fmt.Sprintf("UnmarshalBinary(%x) gave %x", j.bin, v)
+					} else if v, err := j.id.scan(append([]byte{}, j.sqlv...)); err != nil || !bytes.Equal(v, j.val) {
+						what = fmt.Sprintf("Scan(%x) gave %x", j.sqlv, v)
+					} else {
+						var nid lorawan.NetID
+						nid[0], nid[1], nid[2] = byte(j.prefixNet>>16), byte(j.prefixNet>>8), byte(j.prefixNet)
+						var da lorawan.DevAddr
+						binary.BigEndian.PutUint32(da[:], j.prefixAddr)
+						m := da.IsNetID(nid)
+						da.SetAddrPrefix(nid)
+						if m != j.member || binary.BigEndian.Uint32(da[:]) != j.prefixOut {
+							what = fmt.Sprintf("SetAddrPrefix/IsNetID(%06x, %08x) gave %08x/%v, sequentially %08x/%v", j.prefixNet, j.prefixAddr, binary.BigEndian.Uint32(da[:]), m, j.prefixOut, j.member)
+						}
+					}
+					if what != "" {
+						mu.Lock()
+						key := fmt.Sprintf("concurrent:%s:%x", j.id.name, j.val)
+						if _, ok := bad[key]; !ok && len(bad) < 20 {
+							bad[key] = what
+						}
+						mu.Unlock()
+					}
+				}
+			}
+		}(g)
+	}
+	wg.Wait()
+	for k, w := range bad {
+		s.Fail(cases.GoFail{Key: k, What: "with 8 goroutines working on distinct identifiers: " + w, Replay: map[string]interface{}{"goroutines": 8, "rounds": rounds}})
+	}
+	s.Extra["concurrent_identifier_calls"] = 8 * rounds * len(jobs) / 8 * 6
 }
 
 // addrCase: NetIDType / NwkID of a DevAddr as it is (coverage of the harness runs showed that the "no type
@@ -255,6 +348,11 @@ func main() {
 				Replay: map[string]interface{}{"api": id.name + ".Scan", "data": fmt.Sprintf("%x", d)}})
 		}
 	}
+	rounds := 3000
+	if thorough {
+		rounds = 60000
+	}
+	concurrentForms(s, r, rounds)
 	if err := s.Finish(); err != nil {
 		fmt.Fprintln(os.Stderr, err)
 		os.Exit(2)
